@@ -31,7 +31,8 @@ def check(an, rep, tier):
           'transformation.full_matrix', 'transformation.full'}
     runs = sweep(an, rep, ['svd.svd', 'svd.svd_matrix', 'svd.matrix_skeleton',
                            'svd.matrix_svd', 'transformation.full_matrix'], ds,
-                 rules=S_RULES + ['U-cmp', 'O-gram', 'G-cancel'], wheres=wh)
+                 rules=S_RULES + ['U-cmp', 'O-gram', 'G-cancel', 'G-sqrt'],
+                 wheres=wh)
     want = {"'l'": ('weighted', 'rows'), "'r'": ('cols', 'weighted'),
             "'m'": ('half', 'half')}
     for r in runs:
